@@ -192,9 +192,19 @@ def judge(pp, subs, world, act, via):
         if key in act and e1.region(world, act[key])[0] is None:
             return [], ('not-judged', 'sub-slice outside the judged forms')
     feat = feat_of(world, act) + f",via={via}"
-    desc = {'direct': '', 'recipe': 'recipe step ', 'recipe2': 'second recipe step '}[via] + e1.act_str(act)
+    desc = {'direct': '', 'recipe': 'recipe step ', 'recipe2': 'second recipe step ', 'recipe3': 'second remove step '}[via] + \
+        e1.act_str(act)
     called_on = world
     prelude = []
+    if via == 'recipe3':
+        # two consecutive remove steps with the same selector on different slices of one plate (the first on every third
+        # column): the second is a step of its own, however alike the two look
+        prelude = [{'op': 'remove', 'obj': ['P', "(slice(None), slice(None, None, 3))"], 'what': act['what']}]
+        o = e1.apply(pp, subs, world, prelude[0])
+        if not o['ok']:
+            raise env.InternalError(f"prelude {e1.act_str(prelude[0])} failed: {o['exc']!r}")
+        world = e1.commit(world, o)
+        desc += f" (after {e1.act_str(prelude[0])})"
     if via == 'recipe2':
         # the step comes second in its recipe, after a step that changed the plates it addresses: it must act on the wells
         # as that earlier step left them (its operands are still taken from the declared objects, as a user writes it)
@@ -303,7 +313,9 @@ def _worker(item):
     viols, classes = [], set()
     for ai in range(lo, hi):
         act = acts[ai]
-        for via in ('direct', 'recipe', 'recipe2'):
+        for via in ('direct', 'recipe', 'recipe2', 'recipe3'):
+            if via == 'recipe3' and not (act['op'] == 'remove' and e1.refname(act['obj']) == 'P' and sp[1] >= 3):
+                continue
             if via != 'direct' and act['op'] == 'transfer' and 'Pv' in (e1.refname(act['src']), e1.refname(act['dst'])):
                 continue          # a recipe rightly refuses two objects carrying the same name (C16)
             vs, cls = judge(pp, subs, world, act, via)
